@@ -190,7 +190,9 @@ class RelaxationTensor(SuperOperator, Secular, Saveable):
                 #for ii in range(0,self.data.shape[1]):
                 #    if ii != nn:
                 #        self.data[nn,nn,nn,nn] -= self.data[ii,ii,nn,nn]
-                self._data[nn,nn,nn,nn] -= (numpy.trace(self._data[:,:,nn,nn])
+                # (assigned, not subtracted: recalculating twice is 
+                # recalculating once)
+                self._data[nn,nn,nn,nn] = -(numpy.trace(self._data[:,:,nn,nn])
                                             - self._data[nn,nn,nn,nn])
                 
             # dephasing rates 
@@ -206,7 +208,7 @@ class RelaxationTensor(SuperOperator, Secular, Saveable):
                 #for ii in range(0,self.data.shape[1]):
                 #    if ii != nn:
                 #        self.data[nn,nn,nn,nn] -= self.data[ii,ii,nn,nn]
-                self._data[:,nn,nn,nn,nn] -= (numpy.trace(self._data[:,:,:,nn,nn],
+                self._data[:,nn,nn,nn,nn] = -(numpy.trace(self._data[:,:,:,nn,nn],
                                                           axis1=1,axis2=2)
                                             - self._data[:,nn,nn,nn,nn])
                 
